@@ -1,9 +1,10 @@
 #!/bin/bash
+VDIR="$(dirname "$(dirname "$(realpath "$0")")")"
 # mutant_sweep.sh <property> <patch>...   runs the quick check of a property against each patch
 # (applied to /repo, reverted afterwards) and prints whether it was detected (exit 1).
 prop="$1"; shift
 for p in "$@"; do
-  out=$(/verif/tools/with_patch.sh "$p" /verif/run.sh "$prop" quick 2>&1); rc=$?
+  out=$("$VDIR"/tools/with_patch.sh "$p" "$VDIR"/run.sh "$prop" quick 2>&1); rc=$?
   first=$(echo "$out" | grep -A1 "^VIOLATION" | head -2 | tail -1 | cut -c1-160)
   printf "%-50s %s rc=%d %s\n" "$(basename $p)" "$prop" "$rc" "$first"
 done
